@@ -76,7 +76,9 @@ class ConstantStreamGenerator(Elaboratable):
             self.stream      = stream_type()
             self._data_width = len(self.stream.data)
 
-        self.start_position = Signal(range(self._data_length))
+        # Note that this can hold the data length itself: a start position just past the data is how a
+        # continued transfer asks for "nothing more", which we answer with an empty (zero-length) stream.
+        self.start_position = Signal(range(self._data_length + 1))
 
         # If we have a maximum length width, include it in our I/O port.
         # Otherwise, use a constant.
